@@ -36,6 +36,7 @@ NestedStringTokenizer::NestedStringTokenizer(const std::string& s, const std::st
             tokens_.push_back(cache + token);
             cache = ""; // reset cache.
             index = s.find_first_not_of(delimiters, newIndex);
+            splits_.push_back(s.substr(newIndex, index - newIndex));
             endBlockFound = true;
           }
           else
@@ -84,6 +85,7 @@ NestedStringTokenizer::NestedStringTokenizer(const std::string& s, const std::st
             tokens_.push_back(cache + token);
             cache = ""; // reset cache.
             index = newIndex + delimiters.size();
+            splits_.push_back(delimiters);
             endBlockFound = true;
           }
           else
